@@ -14,6 +14,7 @@ import OmbottModel.Drv.RouterEdit
 import OmbottModel.Drv.TsProps
 import OmbottModel.Drv.EnvCache
 import OmbottModel.Drv.Helpers
+import OmbottModel.Drv.RouterListing
 /-! Dispatch of a protocol line to the area handlers.  `State` holds the few models that are
 driven as state machines across lines (router, multipart feed, header store). -/
 namespace Drv
@@ -47,6 +48,7 @@ def step (st : State) (line : String) : State × String :=
     | "tsprops" => pure? (TsProps.handle rest)
     | "envcache" => pure? (EnvCache.handle rest)
     | "helpers" => pure? (Helpers.handle rest)
+    | "rlist" => pure? (RouterListing.handle rest)
     | _ => (st, "bad-op")
 
 end Drv
